@@ -49,6 +49,8 @@ type world struct {
 	dt     string
 	ts     []*tensor.Dense
 	allocs []alloc
+	keep   bool    // progk: retain the axes slices passed to T and report them after every step
+	kept   [][]int
 }
 
 func (w *world) dataPtr(t *tensor.Dense) (p uintptr, n uintptr, ok bool) {
@@ -143,6 +145,9 @@ func (w *world) obsAll() string {
 		sb.WriteString(" ")
 		sb.WriteString(w.obsTensor(i, t))
 	}
+	for i, s := range w.kept {
+		sb.WriteString(fmt.Sprintf(" S%d=%s", i, fints(s)))
+	}
 	return sb.String()
 }
 
@@ -194,7 +199,11 @@ func (w *world) step(op string) (status string) {
 		w.ts = append(w.ts, v.(*tensor.Dense))
 		return fmt.Sprintf("new:%d", len(w.ts)-1)
 	case "T":
-		if err := T(1).T(ints(f[2])...); err != nil {
+		axes := ints(f[2])
+		if w.keep && len(axes) > 0 {
+			w.kept = append(w.kept, axes)
+		}
+		if err := T(1).T(axes...); err != nil {
 			return "err"
 		}
 		return "ok"
@@ -298,8 +307,10 @@ func (w *world) newOrSame(r *tensor.Dense) string {
 // progOps lets other files add operations to the program language.
 var progOps = map[string]func(w *world, f []string) string{}
 
-func runProg(dt string, prog string) string {
-	w := &world{dt: dt}
+func runProg(dt string, prog string) string { return runProgK(dt, prog, false) }
+
+func runProgK(dt string, prog string, keep bool) string {
+	w := &world{dt: dt, keep: keep}
 	var out []string
 	for _, op := range strings.Split(prog, ";") {
 		st := w.step(op)
@@ -317,4 +328,5 @@ var _ = unsafe.Pointer(nil)
 func init() {
 	// prog <dtype> <op;op;...>
 	execs["prog"] = func(a []string) string { return runProg(a[0], a[1]) }
+	execs["progk"] = func(a []string) string { return runProgK(a[0], a[1], true) }
 }
